@@ -100,9 +100,11 @@ func (g *GRU) Apply(inputs []tensor.Tensor) ([]tensor.Tensor, error) {
 		return nil, err
 	}
 
-	prevH := inputs[5]
-	if prevH == nil {
-		prevH = ops.ZeroTensor(1, batchSize, g.hiddenSize)
+	// The initial state is reshaped below, hence we work on a copy: the tensor
+	// given as input may be a model weight or belong to the caller.
+	prevH := ops.ZeroTensor(1, batchSize, g.hiddenSize)
+	if inputs[5] != nil {
+		prevH = inputs[5].Clone().(tensor.Tensor)
 	}
 
 	// Extract the shape of the hidden dimensions without the bidirectional dimension, as
